@@ -73,6 +73,8 @@ pub enum Case {
     Pull(Vec<inst::AnswerPlan>),
     Bomb(BombCase),
     Fuzz(FuzzCase),
+    /// an input of a fuzz target (a crash artifact of a campaign, or a seed)
+    Artifact { target: String, hex: String },
 }
 
 // ---------------------------------------------------------------------------------------------
@@ -439,10 +441,12 @@ fn run_requests(c: &ReqCase, ctx: &RunCtx, o: &mut Outcome) {
             _ => world.delete(&r.text, &r.params),
         };
         let detail = format!("{} | params {:?} | model: {}", short(&r.text), r.params.iter().take(8).collect::<Vec<_>>(), short(&rmodel.text));
+        o.count(&format!("structured_{}", stage), 1);
         match &out.verdict {
             Verdict::Ok => {
                 parsed_any = true;
                 o.label(format!("{}:executed", stage));
+                o.count(&format!("structured_{}_executed", stage), 1);
                 if r.kind == 'm' {
                     if let Some(res) = &out.result {
                         rows_mem.extend(ids_of_result(res));
@@ -468,6 +472,12 @@ fn run_requests(c: &ReqCase, ctx: &RunCtx, o: &mut Outcome) {
             Verdict::GrammarErr => o.label(format!("{}:grammar-err", stage)),
             Verdict::Panicked => {
                 parsed_any |= out.passed_grammar;
+            }
+        }
+        if std::env::var("C14_ERRSTATS").is_ok() {
+            if let Some(e) = &out.error {
+                let key: String = e.chars().filter(|c| !c.is_ascii_digit()).take(34).collect();
+                o.count(&format!("zerr:{}:{}", r.kind, key.replace('\n', " ")), 1);
             }
         }
         let n = panics_to_violations(o, stage, &detail);
@@ -878,6 +888,10 @@ impl Property for C14 {
             Case::Fuzz(f) => {
                 o.label("kind:fuzz");
                 fuzzrun::run_fuzz(f, ctx, &mut o)
+            }
+            Case::Artifact { target, hex } => {
+                o.label("kind:fuzz-artifact");
+                fuzzrun::run_artifact(target, &fuzzrun::unhex(hex), &mut o)
             }
         }
         // anything recorded and not attributed yet
